@@ -118,10 +118,17 @@ def run_impl(sc):
                 calls.append([sensors.index(sensor), 100, to_ticks(time), [val(d) for d in data]])
         cms = MyCms(None, 'cms')
 
+        cb_cache = {}
+
         def make_cb(k):
+            # the same callback object whenever its number repeats: a callback registered twice is called twice per measurement
+            if k in cb_cache:
+                return cb_cache[k]
+
             def cb(sensor, time, data):
                 calls.append([sensors.index(sensor), k, to_ticks(time), [val(d) for d in data]])
             cb._verif_cb = k
+            cb_cache[k] = cb
             return cb
         steps = [0]
         orig_step = env.step
